@@ -505,7 +505,8 @@ func (p *concPeer) await(ch <-chan struct{}, v *quickfix.VerifConcSession) strin
 			if n != last {
 				last, lastChange = n, time.Now()
 			}
-			if time.Since(lastChange) > 3*time.Second || time.Now().After(deadline) {
+			if time.Since(lastChange) > quietWindow() || time.Now().After(deadline) {
+				atomic.AddInt32(&concStalls, 1)
 				return "stalled"
 			}
 		}
@@ -541,6 +542,17 @@ func pause(r *rng) {
 }
 
 const concStall = 15 * time.Second
+
+// concStalls counts the rounds of this worker that gave up waiting: after a handful the engine is evidently broken
+// (each of those rounds is already a reported observation) and the remaining rounds wait less patiently
+var concStalls int32
+
+func quietWindow() time.Duration {
+	if atomic.LoadInt32(&concStalls) >= 6 {
+		return 400 * time.Millisecond
+	}
+	return 3 * time.Second
+}
 
 func rangesOf(xs []int) string {
 	if len(xs) == 0 {
@@ -851,7 +863,10 @@ func (c *concImpl) round(kv map[string]string) string {
 			if count != lastCount {
 				lastCount, lastChange = count, time.Now()
 			}
-			if !missing || !consecutive || time.Since(lastChange) > 3*time.Second {
+			if !missing || !consecutive || time.Since(lastChange) > quietWindow() {
+				if missing && consecutive {
+					atomic.AddInt32(&concStalls, 1)
+				}
 				break
 			}
 			time.Sleep(200 * time.Microsecond)
